@@ -52,7 +52,10 @@ def run(c):
     extra = 600 if c.thorough else 40
     for _ in range(extra):
         seqs.append([rnd.choice(KINDS) for _ in range(5)])
-    jobs = [(concretise(s), rnd.choice([0, 0, 5, 30])) for s in seqs]
+    # gaps between requests: none, short, and longer than the time limit (an idle parent must not count the
+    # pause against the next request)
+    jobs = [(concretise(s), rnd.choice([0, 0, 5, 30, 0, 5, 30, TIMEOUT_MS * 5 // 4, TIMEOUT_MS * 2])) for s in seqs]
+    jobs += [(concretise(s), g) for s in (["add", "add", "add"], ["add", "sleep", "add", "add"], ["add", "panic", "add"]) for g in (TIMEOUT_MS * 3 // 4, TIMEOUT_MS * 5 // 4, TIMEOUT_MS * 2)]
     with ThreadPoolExecutor(max_workers=16) as ex:
         results = list(ex.map(run_seq, jobs))
     # model
@@ -79,7 +82,7 @@ def run(c):
     c.coverage.update({
         "evaluations": len(results), "distinct_nontrivial": len(set(" ".join(o) for o, _, _, _ in results)),
         "traces_validated_against_impl": len(results), "requests": nreq,
-        "rule": "every sequence of length <= %d over {normal, panic, overrun of the time limit, allocation beyond the memory limit, child exit, 1 MiB payload} (exhaustive: each fault in every position), %d random sequences of length 5, gaps of 0/5/30 ms between requests, each on a fresh parent process driving the real Sandbox; replies compared with the request's own outcome and with the Lean model" % (maxlen, extra),
+        "rule": "every sequence of length <= %d over {normal, panic, overrun of the time limit, allocation beyond the memory limit, child exit, 1 MiB payload} (exhaustive: each fault in every position), %d random sequences of length 5, gaps of 0/5/30 ms and of 0.75x / 1.25x / 2x the time limit between requests, each on a fresh parent process driving the real Sandbox; replies compared with the request's own outcome and with the Lean model" % (maxlen, extra),
         "samples": [" ".join(o) for o, _, _, _ in results[5:11]], "exhaustive": True,
     })
 
